@@ -727,6 +727,19 @@ func GroupAlive(g int) bool {
 	return false
 }
 
+// CountTasks counts live tasks of a group whose name contains substr.
+//
+//go:norace
+func CountTasks(group int, substr string) int {
+	n := 0
+	for _, t := range S.tasks {
+		if t.Group == group && t != S.cur && strings.Contains(t.Name, substr) && !strings.Contains(t.Name, "rpcserver") {
+			n++
+		}
+	}
+	return n
+}
+
 // Fail ends the simulation with a harness-defined outcome.
 func Fail(kind, detail string) {
 	s := S
